@@ -370,6 +370,10 @@ for m in (1, 16):
       bounds={"arena_B": "current chunk 8128 usable, any limit, request 1..4096 bytes", "arena_A": "chunk-less, request 1..2048 bytes refused by the global allocator first",
               "claim": "B's request log is the same with and without A's history"})
 
+for nm in ("to_end", "remove"):
+    H("v5_splice_" + nm, "__verif::v1", "V5", quick=["C13"] if nm in ("to_end",) else [], thorough=["C13"], timeout=1500, cost=60, stubs=STUB_CUT + STUB_LOOPS, inst="Vec<u8>",
+      funcs=["collections::Vec::splice", "<Splice as Drop>::drop", "Drain::fill", "Drain::move_tail"],
+      bounds={"vector": "4 elements, capacity 12", "range and replacement length": "concrete per instance (%s)" % nm, "values": "symbolic"})
 # ---------------------------------------------------------------------------
 # S1/S2 collections::String (C14)
 # ---------------------------------------------------------------------------
@@ -400,7 +404,7 @@ H("s2_from_utf8", "__verif::s1", "S2", quick=[], thorough=["C14"], timeout=2400,
 # ---------------------------------------------------------------------------
 DL = ["pop", "remove", "swap_remove", "truncate", "clear", "drain", "forget_drain", "into_iter", "retain", "dedup", "split_off", "into_boxed", "into_slice", "drop_only", "drain_nth"]
 for op in DL:
-    H("dl_" + op, "__verif::dl", "DL", quick=["C15"] if op in ("pop", "remove", "truncate", "drain", "into_iter", "retain", "into_boxed", "into_slice", "drop_only", "drain_nth") else [],
+    H("dl_" + op, "__verif::dl", "DL", quick=["C15"] if op in ("pop", "remove", "truncate", "drain", "into_iter", "retain", "into_boxed", "into_slice", "drop_only", "drain_nth", "splice_end") else [],
       thorough=["C15"] + (["C17"] if op == "into_boxed" else []), timeout=1500, cost=40, stubs=STUB_CUT + STUB_LOOPS, inst="Vec<D> (D = id + counting destructor)",
       funcs=["collections::Vec::" + op, "<Vec as Drop>::drop", "Drain/IntoIter Drop", "Bump::reset"],
       bounds={"elements": 3, "operation": op, "arguments": "symbolic", "then": "container dropped, arena reset"})
